@@ -248,6 +248,12 @@ def _execution_fault(e):
         pass
     if isinstance(e, ZeroDivisionError) and 'zero polynomial' in str(e):
         ok_kind = True
+    try:
+        from .pyx2py import LoopBudgetError
+        if isinstance(e, LoopBudgetError):
+            ok_kind = True
+    except Exception:
+        pass
     if not ok_kind:
         return None
     tb = e.__traceback__
